@@ -32,7 +32,7 @@ def table_harmless():
         mp = os.path.join(d, "meta.json")
         if not os.path.exists(mp): continue
         m = json.load(open(mp))
-        out.append("| `harmless/%s`: %s | %s | %s | %s |" % (os.path.basename(d), m["summary"].replace("|", "/"), ", ".join(m["patches"]), ", ".join(m["properties"]), m["result"]))
+        out.append("| `harmless/%s`: %s | %s | %s | %s |" % (os.path.basename(d), m["summary"].replace("|", "/"), ", ".join((x if isinstance(x, str) else x["file"] + " (C16: caught)") for x in m["patches"]), ", ".join(m["properties"]), m["result"]))
     return "\n".join(out)
 p = os.path.join(V, "DESIGN.md")
 s = open(p).read()
